@@ -173,7 +173,8 @@ def _collect(fi, inline_depth=8, keep=()):
                 ast.copy_location(v, s)
                 ast.fix_missing_locations(v)
                 if isinstance(s.target, ast.Name):
-                    cands.append(Effect('bind:' + s.target.id, list(ctx), None,
+                    # in-place update of a name: kept apart from re-binding (aliasing of arrays / tensors)
+                    cands.append(Effect('aug:' + s.target.id, list(ctx), None,
                                           ast.BinOp(left=ast.Name(id=s.target.id, ctx=ast.Load()), op=s.op, right=inl(s.value, s)), s))
                 else:
                     effects.append(Effect('store', list(ctx), inl(tl, s), ast.BinOp(left=inl(tl, s), op=s.op, right=inl(s.value, s)), s))
@@ -204,7 +205,7 @@ def _collect(fi, inline_depth=8, keep=()):
     while changed:
         changed = False
         for cnd in cands:
-            if cnd.kind[5:] in surviving and cnd not in used:
+            if cnd.kind.split(':', 1)[1] in surviving and cnd not in used:
                 used.append(cnd)
                 new = free(cnd) - surviving
                 if new:
@@ -326,8 +327,9 @@ def effects(fi, keep=(), use_semiring=True):
     for e in effs:
         ctx = tuple((c[0],) + tuple(cz(x) if isinstance(x, ast.AST) else x for x in c[1:]) for c in e.ctx)
         kind = e.kind
-        if kind.startswith('bind:'):
-            kind = 'bind:' + rename.get(kind[5:], kind[5:])
+        if kind.startswith(('bind:', 'aug:')):
+            pre, nm = kind.split(':', 1)
+            kind = pre + ':' + rename.get(nm, nm)
         e.key = (kind, ctx, cz(e.target), cz(e.value))
     return effs
 
@@ -360,8 +362,8 @@ def compare(fi, tmpl, keep=()):
                     out.add(k[1])
                 for x in k:
                     syms(x, out)
-            elif isinstance(k, str) and k.startswith('bind:'):
-                out.add(k[5:])
+            elif isinstance(k, str) and k.startswith(('bind:', 'aug:')):
+                out.add(k.split(':', 1)[1])
             return out
         sa = [(e, syms(e.key, set())) for e in a]
         sb = [(e, syms(e.key, set())) for e in b]
